@@ -175,6 +175,9 @@ def laws_binwise_patchwise(L, tag, x, get_arr, rng, rebuild):
                 if not np.array_equal(sub.binning.edges, want):
                     return f"bins[{st}] edges {sub.binning.edges.tolist()} != {want.tolist()}"
             L.check(f"{tag}.bins[step]", stepped)
+    if nb >= 2:
+        # a selection that would not give increasing bins is rejected, never returned
+        L.raises(f"{tag}.bins[reversed]", lambda: x.bins[::-1])
     L.check(f"{tag}.bins.iter", lambda: None if (
         len(lst := list(x.bins)) == nb and all(eq_arr(get_arr(b), full[i:i + 1]) for i, b in enumerate(lst))
     ) else "iteration over bins differs")
@@ -259,6 +262,14 @@ def laws_counts(L, rng, nb, npatch, auto):
             a.patches[s].sample_patch_sum().data, a.counts[:, s, s].sum(axis=(1, 2)), rtol=1e-12, atol=0)
             else f"patches[{s}] does not commute with summation")
 
+    def selection_is_independent():
+        # writing pair counts into a selection (the documented way to fill a container) must not reach the parent
+        before = snapshot(a)
+        for sel in ([a.bins[0:1], a.bins[0], a.bins[::1]] + ([a.bins[1:]] if nb > 1 else []) + [a.patches[0:1], a.patches[:], a.patches[0]]):
+            sel.set_patch_pair(0, 0, np.full(sel.num_bins, 12345.678))
+            if snapshot(a) != before:
+                return "set_patch_pair on a selection changed the container it was selected from"
+    L.check(f"{tag}.selection-independent", selection_is_independent)
     L.check(f"{tag}.operands-unchanged", lambda: None if {k: snapshot(v) for k, v in (("a", a), ("b", b), ("c", c))} == frozen
             else "an operation of this family modified its operand")
 
@@ -431,6 +442,22 @@ def laws_sampled(L, rng, nb):
         pert = copy.deepcopy(a)
         pert.samples[0, 0] += 1.0
         L.check(f"{tag}.neq-perturbed", lambda: None if a != pert else "perturbed compares equal")
+
+        def nonfinite_matters():
+            for where in ("data", "samples"):
+                for val in (np.nan, np.inf, -np.inf):
+                    other = copy.deepcopy(a)
+                    arr = getattr(other, where)
+                    arr[(0,) * arr.ndim] = val
+                    if a == other or not (a != other):
+                        return f"a finite and a {val} entry in .{where} compare equal"
+                    flip = copy.deepcopy(other)
+                    getattr(flip, where)[(0,) * arr.ndim] = -val if np.isinf(val) else 0.5
+                    if other == flip:
+                        return f"{val} and {getattr(flip, where)[(0,) * arr.ndim]} in .{where} compare equal"
+                    if not (other == copy.deepcopy(other)):
+                        return f"a container with {val} is not equal to its copy"
+        L.check(f"{tag}.eq-nonfinite", nonfinite_matters)
         ints, slices = index_sets(nb, rng)
         for i in ints:
             sl = as_slice(i, nb)
@@ -460,6 +487,8 @@ def laws_sampled(L, rng, nb):
         sel = a.bins
         L.check(f"{tag}.bins.iter-twice", lambda: None if (len(list(sel)), len(list(sel))) == (nb, nb) else "second iteration of the same selector differs")
         L.raises(f"{tag}.bins[out-of-range]", lambda: a.bins[nb])
+        if nb >= 2:
+            L.raises(f"{tag}.bins[reversed]", lambda: a.bins[::-1])
         L.raises(f"{tag}.bad-shape", lambda: cls(a.binning, a.data[:-1] if nb > 1 else np.zeros(3), a.samples))
         frozen = (snapshot(a), snapshot(b))
         laws_inplace(L, tag, [a, b], lambda p, q: p + q, minus=lambda p, q: p - q)
@@ -490,6 +519,9 @@ def laws_binning(L, rng, nb):
             and b != Binning(b.edges, closed="left" if b.closed == "right" else "right") else "different binnings compare equal")
     L.check(f"{tag}.props", lambda: None if np.array_equal(b.left, b.edges[:-1]) and np.array_equal(b.right, b.edges[1:])
             and np.allclose(b.dz, b.right - b.left) and np.allclose(b.mids, (b.left + b.right) / 2) else "left/right/dz/mids wrong")
+    if nb >= 2:
+        L.raises(f"{tag}[reversed]", lambda: b[::-1])
+        L.raises(f"{tag}[reversed-range]", lambda: b[nb - 1:0:-1] if nb > 2 else b[::-1])
     L.raises(f"{tag}.non-increasing", lambda: Binning(b.edges[::-1]))
     L.raises(f"{tag}.duplicate-edge", lambda: Binning(np.concatenate([b.edges[:1], b.edges])))
     L.raises(f"{tag}.one-edge", lambda: Binning([0.5]))
